@@ -340,6 +340,19 @@ Built (retained.go + accessors VerifC18Retained in harness/consensus, consensus/
   (the refused third vote is visible as "no further round tracked"; tryAddVote only logs it - the peer is
   NOT dropped for ErrGotVoteFromUnwantedRound: `TODO - punish peer` in handleMsg - an observation).
 
-13 of 15 caught by the quick tier (with the new runtime-error oracle M49 is expected to be caught as well: re-run mutants.sh) (exit 1, VIOLATION lines for new signatures); the two that are not
+c18-seeded-j-merkle-aunts-exhausted-at-depth | lib/merkle: (meta) | YES | 2: BlockPart block_part.part.proof.aunts aunts:last-k-dropped and aunts:first-k-dropped -> panic-in-handleMsg
+  (independently seeded, /verif/seeded/C18j: computeHashFromAunts checks for an empty aunts list only at   |  ("slice bounds out of range [:-1]" at lib/merkle.computeHashFromAunts simple_proof.go:203), node-state=any
+   the top level)                                                                                  |  (both Propose states), 24 cases each; min. case: part 3 of 4 with 1 of its 2 aunts; stable over two runs.
+
+Why C18j was MISSED: every fixture block had ONE part (a proof without aunts, path depth 0); the aunts field
+  was only mutated as an inserted field on such parts, never on a node waiting for a part set of >= 3 parts.
+Built (multipart.go): in h1-propose and h2-propose the round's proposer (a key the checker holds) proposes a
+  block padded with a 200 000 / 270 000-byte transaction (4 and 5 parts of the production part size 65 536;
+  the part size is a constant, not lowered), then for every part index the valid part and the proof with the
+  aunts list {last k dropped (every k), first k dropped, duplicated, one appended, first hash replaced};
+  index/total consistent, real leaf hash. 138 cases, 0.9 worker-seconds. Unchanged tree: all rejected without
+  panic (valid parts are added), exit 0.
+
+14 of 16 caught by the quick tier (with the new runtime-error oracle M49 is expected to be caught as well: re-run mutants.sh) (exit 1, VIOLATION lines for new signatures); the two that are not
 caught do not break the property as stated (contained panic = "at most the sending peer is dropped").
 */
